@@ -2624,13 +2624,8 @@ static void vbi_proxyd_destroy( void )
    PROXY_CLNT  *req, *p_next;
    int  dev_idx;
 
-   /* close all devices */
-   for (dev_idx = 0; dev_idx < proxy.dev_count; dev_idx++)
-   {
-      vbi_proxy_stop_acquisition(proxy.dev + dev_idx);
-   }
-
-   /* shutdown all client connections & free resources */
+   /* shutdown all client connections & free resources
+   ** (before the devices: closing a connection releases the buffers still queued for it) */
    req = proxy.p_clnts;
    while (req != NULL)
    {
@@ -2641,6 +2636,12 @@ static void vbi_proxyd_destroy( void )
    }
    proxy.p_clnts = NULL;
    proxy.clnt_count = 0;
+
+   /* close all devices */
+   for (dev_idx = 0; dev_idx < proxy.dev_count; dev_idx++)
+   {
+      vbi_proxy_stop_acquisition(proxy.dev + dev_idx);
+   }
 
    /* close listening sockets */
    for (dev_idx = 0; dev_idx < proxy.dev_count; dev_idx++)
